@@ -392,6 +392,9 @@ def install_stage_recorders():
     wrap(aldy.cn, "estimate_cn")
     wrap(aldy.major, "estimate_major")
     wrap(aldy.minor, "estimate_minor")
+    # inner call of the minor stage: its returns carry the raw model objectives (C10 checks the
+    # carry-over of the major score that estimate_minor adds on top)
+    wrap(aldy.minor, "solve_minor_model")
     _installed["stages"] = True
 
 
